@@ -501,7 +501,8 @@ def clause_d(facts, rep):
 
         # by role: the length handed to the byte comparison must have been found equal to the size of the view whose
         # data() is compared - whatever the locals are called
-        sites = [(bid, i, e) for bid, i, s_, e in f.walk() if e.get('k') == 'call' and e.get('cname') in ('memcmp', '__builtin_memcmp', 'InlinedMemcmpEq', 'bcmp') and len(e.get('args') or []) == 3]
+        from ..core import tightest
+        sites = [(bid, i, e) for bid, i, s_, e in tightest(f, lambda e: e.get('k') == 'call' and e.get('cname') in ('memcmp', '__builtin_memcmp', 'InlinedMemcmpEq', 'bcmp') and len(e.get('args') or []) == 3)]
         len_ids = set()
         for _, _, e in sites:
             for x in walk(e['args'][2]):
